@@ -137,3 +137,60 @@ Proof.
       - intros ->. cbn in H1. inversion H1; subst e1. cbn in Hs. exact Hs. }
     intro Hhb. exact (H _ _ Hhb eq_refl).
 Qed.
+
+(* ---------- the hypotheses of C15_lockset_sound are satisfiable ---------- *)
+(* goroutine 0 starts goroutines 1 and 2; each writes field 1 of object 7 while holding mutex 9 of object 7 *)
+Definition ex_conf_trace : trace :=
+  [Go 0 1; Go 0 2;
+   Lock 1 (7, 9); Acc 1 (7, 1) true false; Unlock 1 (7, 9);
+   Lock 2 (7, 9); Acc 2 (7, 1) true false; Unlock 2 (7, 9)].
+Definition ex_conf_table : table := [mkRow 1 true 101 [9] JPlain].
+Definition ex_conf_interp : interp :=
+  mkInterp (fun _ => 0%nat) (fun _ => 0) (fun _ => 0%nat) (fun o _ => o) (fun _ _ => 0) (fun _ _ => 0%nat).
+
+Example C15_ex_wf : wf_trace ex_conf_trace.
+Proof.
+  intros n e H.
+  destruct n as [|[|[|[|[|[|[|[|n]]]]]]]]; cbn in H; try (inversion H; subst e; reflexivity).
+  destruct n; discriminate.
+Qed.
+
+Example C15_ex_conforms : conforms ex_conf_table ex_conf_trace ex_conf_interp.
+Proof.
+  split.
+  - intros i t o f w a H.
+    assert (Hrow : forall t0, (t0 = 1 /\ i = 3%nat) \/ (t0 = 2 /\ i = 6%nat) -> t = t0 -> o = 7 -> f = 1 -> w = true -> a = false ->
+              hb ex_conf_trace 0 i ->
+              exists r, nth_error ex_conf_table (site ex_conf_interp i) = Some r /\ r_field r = f /\ r_write r = w /\
+                is_atomic r = a /\ (forall m, In m (r_locks r) -> holds ex_conf_trace i t (lockobj ex_conf_interp o m, m)) /\
+                (is_init r = true -> t = creator ex_conf_interp o /\ (i < pubidx ex_conf_interp o)%nat /\
+                   exists e, nth_error ex_conf_trace (pubidx ex_conf_interp o) = Some e /\ thread_of e = creator ex_conf_interp o) /\
+                (is_init r = false -> t = creator ex_conf_interp o \/ hb ex_conf_trace (pubidx ex_conf_interp o) i) /\
+                (forall tag, r_class r = JPub tag -> t = publisher ex_conf_interp o tag /\ (i < pubat ex_conf_interp o tag)%nat /\
+                   exists e, nth_error ex_conf_trace (pubat ex_conf_interp o tag) = Some e /\ thread_of e = publisher ex_conf_interp o tag /\ is_pub_event e = true) /\
+                (forall tag, r_class r = JAfter tag -> t = publisher ex_conf_interp o tag \/ hb ex_conf_trace (pubat ex_conf_interp o tag) i)).
+    { intros t0 Hi -> -> -> -> -> Hhb. exists (mkRow 1 true 101 [9] JPlain). cbn [ex_conf_interp site creator pubidx lockobj publisher pubat].
+      repeat split; try reflexivity.
+      - intros m [<-|[]]. destruct Hi as [[-> ->]|[-> ->]]; reflexivity.
+      - discriminate.
+      - discriminate.
+      - discriminate.
+      - intros _. right. exact Hhb.
+      - discriminate.
+      - discriminate.
+      - discriminate.
+      - discriminate. }
+    destruct i as [|[|[|[|[|[|[|[|i]]]]]]]]; cbn in H; try discriminate.
+    + inversion H; subst. apply (Hrow 1); auto.
+      eapply hb_sync; [|reflexivity|reflexivity|reflexivity]. lia.
+    + inversion H; subst. apply (Hrow 2); auto.
+      apply hb_trans with 1%nat.
+      * eapply hb_po; [|reflexivity|reflexivity|reflexivity]. lia.
+      * eapply hb_sync; [|reflexivity|reflexivity|reflexivity]. lia.
+    + destruct i; discriminate.
+  - intros i j t t' o f w w' a a' r r' _ _ Hr Hr' Hs. cbn in Hr, Hr'. inversion Hr; inversion Hr'; subst. discriminate.
+Qed.
+
+(* hence, by the theorem, the two unordered-looking writes are ordered *)
+Example C15_ex_race_free : race_free ex_conf_trace.
+Proof. exact (C15_lockset_sound ex_conf_table ex_conf_trace ex_conf_interp C15_ex_wf C15_ex_conforms eq_refl). Qed.
